@@ -99,6 +99,34 @@ def run(res):
             continue
         if r2 != first:
             direct.append(('mutating the returned set changed the answer of the next call: %r then %r' % (sorted(map(repr, first)), sorted(map(repr, r2))), ctx))
+        # other ways of making the same call: keyword arguments, explicit defaults, text + an explicit parser object,
+        # a deep copy of the structure
+        if i % 4 == 0:
+            import copy
+            txt = None
+            try:
+                txt = str(to_obj(t, lang('CTLS') if logic == 'CTL' else L))
+            except Exception:
+                pass
+            variants = [('keyword arguments', lambda: L.modelcheck(kripke=K, formula=to_obj(t, L))),
+                        ('explicit defaults parser=None, F=None', lambda: L.modelcheck(K, to_obj(t, L), None, None)),
+                        ('a deep copy of the structure', lambda: L.modelcheck(copy.deepcopy(K), to_obj(t, L)))]
+            if txt is not None and all(isinstance(a_, str) and a_.isidentifier() for a_ in atoms):
+                variants.append(('the printed text and an explicit parser object', lambda: L.modelcheck(K, txt, parser=L.Parser())))
+                variants.append(('the printed text and the default parser', lambda: L.modelcheck(K, txt)))
+            for how, call in variants:
+                try:
+                    with contextlib.redirect_stdout(io.StringIO()):
+                        rv = call()
+                except Exception as e:
+                    rv = 'raised ' + type(e).__name__
+                if how.startswith('a deep copy') and isinstance(rv, set):
+                    rv = set(x for x in names if any(x is y or repr(x) == repr(y) for y in rv))
+                    same = sorted(map(repr, rv)) == sorted(map(repr, first))
+                else:
+                    same = (rv == first)
+                if not same:
+                    direct.append(('the same query made with %s answers %r instead of %r' % (how, rv if isinstance(rv, str) else sorted(map(repr, rv)), sorted(map(repr, first))), ctx))
         idx = {repr(nm): s for s, nm in enumerate(names)}
         a = 'OK ' + ' '.join(map(str, sorted(idx[repr(x)] for x in first)))
         strlabs = [[l for l in ls if isinstance(l, str)] for ls in labs]
